@@ -45,9 +45,9 @@ Proof. exact lv_known_closed. Qed.
 Print Assumptions T15_1c_known_is_closed.
 
 (* T15.2 exactness on the operator fragment (literals under not / and / or / chained comparisons /
-   binary operators, any depth): literal_value returns exactly Python's VALUE (the deciding operand
-   of and/or, the bool of a comparison chain), says "unknown" exactly when evaluation raises, and no
-   exception escapes. *)
+   binary operators / calls of whitelisted builtins without keywords, any depth): literal_value returns
+   exactly Python's VALUE (the deciding operand of and/or, the bool of a comparison chain), says
+   "unknown" exactly when evaluation raises, and no exception escapes. *)
 Theorem T15_2_operator_fragment_exact : forall env e, frag e = true -> lv e = wrap (eval env e).
 Proof. exact frag_exact. Qed.
 Print Assumptions T15_2_operator_fragment_exact.
@@ -115,6 +115,8 @@ Example ex_known : lv (EBool true [EConst (VInt 1); EBin BAdd (EConst (VStr [97]
 Proof. vm_compute. reflexivity. Qed.
 Example ex_frag : frag (ECmp (EConst (VInt 0)) [(CLt, EBin BFloorDiv (EConst (VInt 1)) (EConst (VInt 0))); (CLt, EConst (VInt 2))]) = true.
 Proof. reflexivity. Qed.
+Example ex_frag_call : frag (ECall "len" [EBin BAdd (EList [EConst (VInt 1)]) (EList [])] []) = true.
+Proof. vm_compute. reflexivity. Qed.
 Example ex_raise_unknown : lv (ECmp (EConst (VInt 0)) [(CLt, EBin BFloorDiv (EConst (VInt 1)) (EConst (VInt 0))); (CLt, EConst (VInt 2))]) = LUnknown.
 Proof. vm_compute. reflexivity. Qed.
 (* the witnesses of the repaired defects *)
